@@ -499,7 +499,8 @@ func vCount(q, th int) func(string) int {
 		if tier == "thorough" {
 			return th
 		}
-		return q
+		// the quick tier runs three times the count each monitor was first sized with (it still takes seconds)
+		return 3 * q
 	}
 }
 
